@@ -831,6 +831,36 @@ pub fn corpus_model_cases(ctx: &Ctx, out: &mut Out) {
     }
 }
 
+/// One exact correspondence line for a plain history: the goals (single trait atoms) posed in order
+/// to ONE recursive solver with caching on — the real `RecursiveContext` vs the FixedPoint model on
+/// the instance read off chalk's own clauses.  Used by C02/C05 on the ground dependency-graph
+/// families, the class of instances for which Props/C05fp.lean proves the model's answers to be the
+/// least / greatest fixed point.
+pub fn plain_history_case(out: &mut Out, text: &str, goal_texts: &[String], label: &str) {
+    let low = match lower_all(text, goal_texts) {
+        Ok(l) => l,
+        Err(_) => {
+            out.count("fp_program_or_goal_rejected");
+            return;
+        }
+    };
+    let roots: Vec<UGoal> = low.goals.iter().map(|(_, g)| g.clone()).collect();
+    if roots.is_empty() {
+        return;
+    }
+    let db: &dyn RustIrDatabase<ChalkIr> = &low.db;
+    match explore(db, &roots, 48, 30) {
+        Ok(inst) => {
+            let calls: Vec<CallSpec> = roots.iter().map(|r| CallSpec::plain(inst.keys.iter().position(|k| k == r).unwrap())).collect();
+            let req = request(&inst, true, 100, &calls);
+            let (expected, _) = run_script_real(db, &inst, true, 100, 30, &calls);
+            out.count("fp_plain_history_cases");
+            out.case(req.to_string(), expected, true, &format!("fp-history {} | {}", label, text.replace('\n', " | ")));
+        }
+        Err(_) => out.count("fp_outside_abstraction"),
+    }
+}
+
 // ------------------------------------------------------------------------------------------------
 // (ii) property oracles on the real code, both solvers
 // ------------------------------------------------------------------------------------------------
